@@ -189,16 +189,28 @@ fn write_bounds<W: Write>(instance: &v1::Instance, out: &mut W) -> Result<(), Mp
             .get(&dvar_id)
             .ok_or(MpsWriteError::InvalidVariableId(dvar_id))?;
         let name = dvar_name(dvar);
-        if let Some(bound) = &dvar.bound {
-            let (low_kind, up_kind) = match dvar.kind {
-                // for now ignoring the BV specifier for binary variables
-                // due to uncertainty in how widely supported it is.
-                1 | 2 => ("LI", "UI"),
-                _ => ("LO", "UP"),
-            };
-            writeln!(out, "  {up_kind} BND1    {name}  {}", bound.upper)?;
-            writeln!(out, "  {low_kind} BND1    {name}  {}", bound.lower)?;
+        // An unset bound means unbounded ([0, 1] for binary variables), which differs from the
+        // MPS default [0, +inf), so the bound is always written out.
+        let bound = match (&dvar.bound, dvar.kind) {
+            (Some(bound), _) => bound.clone(),
+            // v1::decision_variable::Kind::Binary
+            (None, 1) => v1::Bound {
+                lower: 0.0,
+                upper: 1.0,
+            },
+            (None, _) => v1::Bound {
+                lower: f64::NEG_INFINITY,
+                upper: f64::INFINITY,
+            },
         };
+        let (low_kind, up_kind) = match dvar.kind {
+            // for now ignoring the BV specifier for binary variables
+            // due to uncertainty in how widely supported it is.
+            1 | 2 => ("LI", "UI"),
+            _ => ("LO", "UP"),
+        };
+        writeln!(out, "  {up_kind} BND1    {name}  {}", bound.upper)?;
+        writeln!(out, "  {low_kind} BND1    {name}  {}", bound.lower)?;
     }
     Ok(())
 }
